@@ -11,6 +11,7 @@ Extraction "prp.ml"
   shrink_decide eq_con ge_con
   j_sys j_false j_meet j_nonempty j_incl j_equiv j_sup j_inf j_relax j_implies_con j_disjoint_con j_saturates
   j_is_bounded j_affine_image j_affine_preimage j_unconstrain j_remove_higher j_project j_concatenate j_neg_con
+  j_gen_image j_gen_preimage j_bounded_image j_bounded_preimage j_unconstrain_set j_map_dims j_expand
   mem_con_b mem_pcg_b j_grid_gens j_grid_incl j_grid_empty j_qadd j_qmul j_qmake
   Qcompare Qeq_bool Qle_bool Qplus Qmult Qminus Qopp Qred inject_Z.
 Cd "../../coq".
